@@ -61,7 +61,9 @@ func (l *limitReadCloser) Read(p []byte) (n int, err error) {
 		if l.N == -1 {
 			n--
 		}
-		if err == nil {
+		// The source may return its last bytes together with io.EOF: the stream
+		// is still too large, so it must not end with a clean EOF.
+		if err == nil || errors.Is(err, io.EOF) {
 			err = ErrStreamTooLarge
 		}
 		if !l.closed {
